@@ -144,6 +144,9 @@ func Main(m *testing.M, prop string, init func()) {
 	if init != nil {
 		init()
 	}
+	if ReplayPrelude != nil && os.Getenv("VERIF_REPLAY") != "" {
+		ReplayPrelude()
+	}
 	code := m.Run()
 	flush(true)
 	os.Exit(code)
@@ -398,9 +401,20 @@ func Check(t *testing.T, test string, n int, prop func(*rapid.T)) {
 	_ = flag.Set("rapid.nofailfile", "true")
 	rapid.Check(t, func(rt *rapid.T) {
 		defer libraryPanic(rt, test)
+		if Prelude != nil {
+			Prelude(rt)
+		}
 		prop(rt)
 	})
 }
+
+// Prelude, when set by a check package, runs at the start of every rapid case with the case's own source
+// of randomness (h/chaos: failing operations that must leave nothing behind). ReplayPrelude runs once
+// before a stored case is replayed.
+var (
+	Prelude       func(*rapid.T)
+	ReplayPrelude func()
+)
 
 // libraryPanic turns a panic raised inside the library (the innermost non-runtime frame belongs to
 // github.com/llir/llvm) while a property is evaluated into a recorded violation: every property here
